@@ -37,6 +37,7 @@ func runC06(c *Ctx) {
 	ruleIndexConsistency(c, "R6.2")
 	ruleGroupFromTerms(c, "R6.3")
 	ruleEchoBroadcastOrder(c, "R6.5")
+	ruleSignedCoverage(c, "R6.6") // the terms the final group is built from are the terms every node verified: all of them are signed
 }
 
 // sortedParticipantsCall: v is util.SortedByPublicKey(append(X.Remaining, X.Joining...)).
@@ -193,6 +194,40 @@ func ruleIndexConsistency(c *Ctx, rule string) {
 		// the config used is the one built for this execution (parameter) and asGroup receives that list
 		for _, ci := range callsIn(se, func(ci ssa.CallInstruction) bool { return strings.HasSuffix(calleeName(ci), "internal/dkg.asGroup") }) {
 			a := ci.Common().Args
+			// which formula gives the transition time (genesis for a first epoch, a future round otherwise) is decided by
+			// the agreed terms alone: a choice that looks at node-local state (does this node already hold a share?) lets a
+			// joiner and a remainer of the same resharing build different groups
+			if len(a) > 4 {
+				nBr := 0
+				seenPhi := map[*ssa.Phi]bool{}
+				var visit func(v ssa.Value, d int)
+				visit = func(v ssa.Value, d int) {
+					ph, isPhi := v.(*ssa.Phi)
+					if !isPhi || seenPhi[ph] || d > 4 {
+						return
+					}
+					seenPhi[ph] = true
+					var cond ssa.Value
+					for b, k := ph.Block().Idom(), 0; b != nil && k < 6; b, k = b.Idom(), k+1 {
+						if cond = condOf(b); cond != nil {
+							break
+						}
+					}
+					if cond != nil {
+						nBr++
+						os := Origins(cond)
+						okc := len(os) > 0 && allOrigins(os, func(o Origin) bool {
+							return o.Kind == "const" || (o.Kind == "field" && strings.HasPrefix(o.Name, "internal/dkg.DBState."))
+						})
+						c.Ok(rule, "the transition-time formula is chosen by the agreed terms only", shortPos(c.P, ph), okc, "deciding condition reads: "+strings.Join(originStrings(os), ","))
+					}
+					for _, e := range ph.Edges {
+						visit(e, d+1)
+					}
+				}
+				visit(a[4], 0)
+				c.Floor(rule, "branches deciding the transition time", nBr, 1)
+			}
 			c.Ok(rule, "asGroup is given the state of this execution, its share and the qualified nodes", shortPos(c.P, ci),
 				a[1] == ssa.Value(paramOfType(se, "internal/dkg.DBState")) && hasOrigin(Origins(a[2]), func(o Origin) bool {
 					return o.Kind == "alloc" || o.Kind == "recv" || o.Kind == "field" || o.Kind == "other" || o.Kind == "call"
@@ -246,10 +281,16 @@ func ruleGroupFromTerms(c *Ctx, rule string) {
 		c.Ok(rule, "asGroup takes Group."+f+" from the stored terms / share / explicit transition time", shortPos(c.P, lit), v != nil && chk(v), f+" = "+trimTemps(pathOf(v)))
 	}
 	// seed derived only when none stored
-	for f, sts := range fieldStores(ag, lit) {
-		if f != "GenesisSeed" {
-			continue
+	// (the literal is copied into the `group` variable: stores to either object count)
+	var seedStores []*ssa.Store
+	forEachInstr(ag, func(_ *ssa.BasicBlock, _ int, in ssa.Instruction) {
+		if st, ok := in.(*ssa.Store); ok {
+			if fa, isFA := st.Addr.(*ssa.FieldAddr); isFA && typeShort(fa.X.Type()) == "common/key.Group" && fieldName(fa.X.Type(), fa.Field) == "GenesisSeed" {
+				seedStores = append(seedStores, st)
+			}
 		}
+	})
+	for _, sts := range [][]*ssa.Store{seedStores} {
 		for _, st := range sts {
 			if call, isC := stripConv(st.Val).(*ssa.Call); isC && strings.HasSuffix(calleeName(call), "common/key.Group).Hash") {
 				g := dcGuarded(st, DCons{"len(" + pathOf(lit) + ".GenesisSeed)", "0", 0}) || condGuarded(st, func(cond ssa.Value, truth bool) bool {
